@@ -517,3 +517,66 @@ pub fn nth_subset<const N: usize>(mut id: u64) -> [u8; N] {
     }
     c
 }
+
+/// 64-bit values built from equal-width fields (bytes, 16-bit and 32-bit words, nibbles): every field is
+/// empty or one of two field values A, B (all 3^n assignments for 8, 4 and 2 fields), A from a palette of
+/// single bits, small numbers, masks and seeded values and B equal to A, its complement, 1 or seeded; plus each
+/// palette value replicated over all fields, the even ones, the odd ones and either half. Code that
+/// folds, compares or counts a 64-bit value word by word (XOR/OR folds, bit-sliced counters, per-byte tables)
+/// goes wrong on values whose fields repeat or cancel - which neither few-bit sets, power-of-two
+/// neighbourhoods nor uniformly random values contain.
+pub fn field_structured_u64(seed: u64) -> Vec<u64> {
+    let mut out: Vec<u64> = Vec::new();
+    let mut rng = Rng::new(seed, 0xF1E1D);
+    for &w in &[4u32, 8, 16, 32] {
+        let n = (64 / w) as usize;
+        let mask = if w == 64 { u64::MAX } else { (1u64 << w) - 1 };
+        let mut palette: Vec<u64> = vec![1, 2, 3, 51 & mask, 52 & mask, mask, mask >> 1, 1 << (w - 1), 0x5555_5555_5555_5555 & mask, 0xAAAA_AAAA_AAAA_AAAA & mask];
+        for k in 0..w.min(16) {
+            palette.push(1u64 << k);
+        }
+        for _ in 0..4 {
+            palette.push(rng.next() & mask);
+        }
+        palette.sort_unstable();
+        palette.dedup();
+        palette.retain(|&p| p != 0);
+        let place = |vals: &dyn Fn(usize) -> u64| -> u64 {
+            let mut v = 0u64;
+            for f in 0..n {
+                v |= (vals(f) & mask) << (w as usize * f);
+            }
+            v
+        };
+        for &a in &palette {
+            out.push(place(&|_| a));
+            out.push(place(&|f| if f % 2 == 0 { a } else { 0 }));
+            out.push(place(&|f| if f % 2 == 1 { a } else { 0 }));
+            out.push(place(&|f| if f < n / 2 { a } else { 0 }));
+            out.push(place(&|f| if f >= n / 2 { a } else { 0 }));
+            if n <= 8 {
+                let bs = [a, !a & mask, 1, rng.next() & mask];
+                for &b in &bs {
+                    let total = 3usize.pow(n as u32);
+                    for code in 0..total {
+                        let mut c = code;
+                        let mut v = 0u64;
+                        for f in 0..n {
+                            let x = match c % 3 {
+                                0 => 0,
+                                1 => a,
+                                _ => b,
+                            };
+                            c /= 3;
+                            v |= x << (w as usize * f);
+                        }
+                        out.push(v);
+                    }
+                }
+            }
+        }
+    }
+    out.sort_unstable();
+    out.dedup();
+    out
+}
